@@ -15,7 +15,7 @@ from .common import (ROOT, REPO, REPLAY_DIR, NCPU, Scratch, log, load_findings, 
 from .extract import Assembler, AnchorLost, UnitSyntax
 from .props import PROPS, NOT_APPLICABLE, TRUSTED_BASE
 
-EVIDENCE_DIR = os.path.join(ROOT, 'evidence')
+EVIDENCE_DIR = os.environ.get('RBVERIF_EVIDENCE_DIR') or os.path.join(ROOT, 'evidence')
 
 
 class Outcome:
